@@ -316,9 +316,13 @@ impl<const H: usize> Reader<H> {
         offset: u64,
         flushed_offset: u64,
     ) -> Result<Record<'_, H>, ReadError> {
-        let record_header_buf = self
-            .read_ahead_buf
-            .read(&self.file, offset, RECORD_HEAD_SIZE)?;
+        // Anything buffered before flushed bytes were rewritten in place is stale
+        self.read_ahead_buf
+            .invalidate_if_rewritten(self.flushed_offset.rewrites());
+
+        let record_header_buf =
+            self.read_ahead_buf
+                .read(&self.file, offset, RECORD_HEAD_SIZE, flushed_offset)?;
 
         if is_truncation_marker(&record_header_buf[..RECORD_HEAD_SIZE]) {
             return Err(ReadError::TruncationMarker { offset });
@@ -343,9 +347,9 @@ impl<const H: usize> Reader<H> {
             });
         }
 
-        let payload = self
-            .read_ahead_buf
-            .read(&self.file, payload_offset, payload_len)?;
+        let payload =
+            self.read_ahead_buf
+                .read(&self.file, payload_offset, payload_len, flushed_offset)?;
 
         let header = &payload[..H];
         let compressed_data = &payload[H..];
@@ -519,6 +523,8 @@ impl<const H: usize> Reader<H> {
         {
             self.read_ahead_buf.invalidate();
         }
+        // ... and the read-ahead buffers of the readers sharing this segment
+        self.flushed_offset.note_rewrite();
 
         // Sync to ensure durability
         self.file.sync_data()?;
@@ -566,6 +572,7 @@ struct ReadAheadBuf {
     offset: u64, // File offset of the buffer start
     pos: usize,  // Current read position in buffer
     valid_len: usize,
+    rewrites: u64, // FlushedOffset::rewrites() as of the last validation
 }
 
 impl ReadAheadBuf {
@@ -575,6 +582,14 @@ impl ReadAheadBuf {
             offset: 0,
             pos: 0,
             valid_len: 0,
+            rewrites: 0,
+        }
+    }
+
+    fn invalidate_if_rewritten(&mut self, rewrites: u64) {
+        if self.rewrites != rewrites {
+            self.rewrites = rewrites;
+            self.invalidate();
         }
     }
 
@@ -594,7 +609,13 @@ impl ReadAheadBuf {
         self.valid_len = 0;
     }
 
-    fn read(&mut self, file: &File, offset: u64, length: usize) -> Result<&[u8], ReadError> {
+    fn read(
+        &mut self,
+        file: &File,
+        offset: u64,
+        length: usize,
+        flushed_offset: u64,
+    ) -> Result<&[u8], ReadError> {
         let end_offset = offset + length as u64;
 
         // If offset is within the valid read-ahead range
@@ -604,7 +625,7 @@ impl ReadAheadBuf {
         }
 
         // Fill the read-ahead buffer for the requested offset & length
-        self.fill(file, offset, length)?;
+        self.fill(file, offset, length, flushed_offset)?;
 
         // Ensure we now have enough valid data
         if offset < self.offset || end_offset > (self.offset + self.valid_len as u64) {
@@ -619,7 +640,13 @@ impl ReadAheadBuf {
         Ok(&self.buf[start..start + length])
     }
 
-    fn fill(&mut self, file: &File, offset: u64, mut length: usize) -> Result<(), ReadError> {
+    fn fill(
+        &mut self,
+        file: &File,
+        offset: u64,
+        mut length: usize,
+        flushed_offset: u64,
+    ) -> Result<(), ReadError> {
         let end_offset = offset + length as u64;
 
         // Set the new read-ahead offset aligned to 64KB
@@ -647,7 +674,8 @@ impl ReadAheadBuf {
             total_read += bytes_read;
         }
 
-        self.valid_len = total_read;
+        // Bytes beyond the flushed offset may still change: never keep them
+        self.valid_len = total_read.min(flushed_offset.saturating_sub(self.offset) as usize);
 
         Ok(())
     }
